@@ -51,6 +51,30 @@ Theorem C01_orefa_step_mkdir : forall (o : ofs) (s : fsys) (sv : sview) (ps : li
   /\ orel (fst (o_mkdir o (abs_path (ps ++ [c])) perm)) (fst (k_mkdir s sv (abs_path (ps ++ [c])) perm)) sv.
 Proof. intros o s sv ps c perm. exact (orefa_step_mkdir o s sv ps c perm). Qed.
 
+Theorem C01_orefa_step_remove : forall (o : ofs) (s : fsys) (sv : sview) (ps : list str) (c : str),
+  ohyps s sv -> orel o s sv -> gcs (ps ++ [c]) -> length (ps ++ [c]) < WALK_FUEL ->
+  proj_res Linux (snd (o_remove o (abs_path (ps ++ [c])))) = snd (go_remove s sv (abs_path (ps ++ [c])))
+  /\ orel (fst (o_remove o (abs_path (ps ++ [c])))) (fst (go_remove s sv (abs_path (ps ++ [c])))) sv.
+Proof. intros o s sv ps c. exact (orefa_step_remove o s sv ps c). Qed.
+
+Theorem C01_orefa_step_read_file : forall (o : ofs) (s : fsys) (sv : sview) (ps : list str) (c : str),
+  ohyps s sv -> orel o s sv -> gcs (ps ++ [c]) -> length (ps ++ [c]) < WALK_FUEL ->
+  proj_res Linux (o_read_file o (abs_path (ps ++ [c]))) = go_read_file s sv (abs_path (ps ++ [c])).
+Proof. intros o s sv ps c. exact (orefa_step_read_file o s sv ps c). Qed.
+
+Theorem C01_orefa_step_read_dir : forall (o : ofs) (s : fsys) (sv : sview) (ps : list str) (c : str),
+  ohyps s sv -> orel o s sv -> gcs (ps ++ [c]) -> length (ps ++ [c]) < WALK_FUEL ->
+  osim (proj_res Linux (o_read_dir o (abs_path (ps ++ [c])))) (go_read_dir s sv (abs_path (ps ++ [c]))).
+Proof. intros o s sv ps c. exact (orefa_step_read_dir o s sv ps c). Qed.
+
+(* WriteFile (and so OpenFile(O_WRONLY|O_CREATE|O_TRUNC) + Write) of a name that does not exist: creation, content, the errors *)
+Theorem C01_orefa_step_write_file_new : forall (o : ofs) (s : fsys) (sv : sview) (ps : list str) (c : str) (data : list N) (perm : N),
+  ohyps s sv -> orel o s sv -> gcs (ps ++ [c]) -> length (ps ++ [c]) < WALK_FUEL ->
+  twalk (f_heap s) (v_root (sv_view sv)) (ps ++ [c]) = None ->
+  proj_res Linux (snd (o_write_file o (abs_path (ps ++ [c])) data perm)) = snd (go_write_file s sv (abs_path (ps ++ [c])) data perm)
+  /\ orel (fst (o_write_file o (abs_path (ps ++ [c])) data perm)) (fst (go_write_file s sv (abs_path (ps ++ [c])) data perm)) sv.
+Proof. intros o s sv ps c data perm. exact (orefa_step_write_file_new o s sv ps c data perm). Qed.
+
 (* non-vacuity: the initial world (/home, /root, /tmp) satisfies the hypotheses; Mkdir("/tmp/a") succeeds on both
    sides, Stat("/tmp/a") afterwards finds the directory on both sides *)
 Example C01_orefa_example :
@@ -69,3 +93,32 @@ Proof.
   split; [vm_compute; reflexivity|]. split; [vm_compute; reflexivity|].
   eexists. split; vm_compute; reflexivity.
 Qed.
+
+(* non-vacuity for Remove / ReadDir / ReadFile: on the initial world Remove("/tmp") (an empty directory) succeeds on
+   both sides, ReadDir("/tmp") lists nothing, ReadFile("/tmp") is refused with EISDIR on both sides *)
+Example C01_orefa_example_remove :
+  let w := spec_init 18 in
+  let tmp := [116; 109; 112]%N in
+  ohyps (sw_fs w) (sw_sv w) /\ gcs ([] ++ [tmp]) /\ length ([] ++ [tmp]) < WALK_FUEL
+  /\ snd (go_remove (sw_fs w) (sw_sv w) (abs_path ([] ++ [tmp]))) = SOk
+  /\ snd (o_remove (ow_fs (oworld_of_sworld w)) (abs_path ([] ++ [tmp]))) = ROk
+  /\ go_read_dir (sw_fs w) (sw_sv w) (abs_path ([] ++ [tmp])) = SInfos []
+  /\ go_read_file (sw_fs w) (sw_sv w) (abs_path ([] ++ [tmp])) = SErr EISDIR
+  /\ proj_res Linux (o_read_file (ow_fs (oworld_of_sworld w)) (abs_path ([] ++ [tmp]))) = SErr EISDIR.
+Proof.
+  cbv zeta. split; [apply ohyps_check_sound; vm_compute; reflexivity|].
+  split; [cbn [app]; constructor; [apply good_compb_sound; vm_compute; reflexivity|constructor]|].
+  split; [unfold WALK_FUEL; cbn [length app]; lia|].
+  repeat (split; [vm_compute; reflexivity|]). vm_compute. reflexivity.
+Qed.
+
+(* non-vacuity for WriteFile of a new name: "/tmp/a" does not exist in the initial world; both sides create it *)
+Example C01_orefa_example_write :
+  let w := spec_init 18 in
+  let a := [97%N] in let tmp := [116; 109; 112]%N in
+  twalk (f_heap (sw_fs w)) (v_root (sv_view (sw_sv w))) ([tmp] ++ [a]) = None
+  /\ snd (go_write_file (sw_fs w) (sw_sv w) (abs_path ([tmp] ++ [a])) [120%N] 420) = SOk
+  /\ snd (o_write_file (ow_fs (oworld_of_sworld w)) (abs_path ([tmp] ++ [a])) [120%N] 420) = ROk
+  /\ proj_res Linux (o_read_file (fst (o_write_file (ow_fs (oworld_of_sworld w)) (abs_path ([tmp] ++ [a])) [120%N] 420)) (abs_path ([tmp] ++ [a])))
+     = SBytes [120%N].
+Proof. vm_compute. repeat split. Qed.
